@@ -1815,7 +1815,30 @@ func init() {
 					}
 					return out
 				}
-				sa, sb := sig(a), sig(b)
+				// a rebuilder may delegate to a helper of its own package (two levels): the helper's calls count
+				sigDeep := func(root *ssa.Function) map[string]bool {
+					out := map[string]bool{}
+					seen := map[*ssa.Function]bool{}
+					var walk func(f *ssa.Function, d int)
+					walk = func(f *ssa.Function, d int) {
+						if f == nil || seen[f] || d > 2 || len(f.Blocks) == 0 {
+							return
+						}
+						seen[f] = true
+						for k := range sig(f) {
+							out[k] = true
+						}
+						for _, c := range prog.CallsIn(f) {
+							g := c.Common().StaticCallee()
+							if g != nil && g.Pkg != nil && f.Pkg != nil && g.Pkg == f.Pkg && g.Name() != "DeepCopy" || (g != nil && d == 0 && g.Pkg == f.Pkg) {
+								walk(g, d+1)
+							}
+						}
+					}
+					walk(root, 0)
+					return out
+				}
+				sa, sb := sigDeep(a), sigDeep(b)
 				var onlyA, onlyB []string
 				for k := range sa {
 					if !sb[k] {
